@@ -29,7 +29,8 @@ CONSTANTS P,            \* number of parts (0 = single request transfer)
           R,            \* max_request_concurrency
           RQ,           \* max_request_queue_size
           MaxFaults, UserMayCancel,
-          Kind          \* "upload" | "delete"  (delete: P = 0)
+          Kind,         \* "upload" | "copy" | "delete"  (delete: P = 0)
+          NeedHead      \* copy only: the size is not provided, HeadObject of the source first
 
 Workers == {"request-w" \o ToString(i) : i \in 0..(R - 1)}
 Create == 100
@@ -43,19 +44,24 @@ Deps(k) == IF P = 0 THEN {}
 \* order in which the submission task submits them
 SubOrder == IF P = 0 THEN <<Final>>
             ELSE <<Create>> \o [i \in 1..P |-> PartT(i)] \o <<Final>>
-OpOf(k) == IF P = 0 THEN (IF Kind = "delete" THEN "DeleteObject" ELSE "PutObject")
+OpOf(k) == IF P = 0 THEN (IF Kind = "delete" THEN "DeleteObject"
+                          ELSE IF Kind = "copy" THEN "CopyObject" ELSE "PutObject")
            ELSE IF k = Create THEN "CreateMultipartUpload"
-           ELSE IF k = Final THEN "CompleteMultipartUpload" ELSE "UploadPart"
+           ELSE IF k = Final THEN "CompleteMultipartUpload"
+           ELSE IF Kind = "copy" THEN "UploadPartCopy" ELSE "UploadPart"
 \* class of the task object (as logged by the executor)
-ClassOf(k) == IF P = 0 THEN (IF Kind = "delete" THEN "DeleteObjectTask" ELSE "PutObjectTask")
+ClassOf(k) == IF P = 0 THEN (IF Kind = "delete" THEN "DeleteObjectTask"
+                             ELSE IF Kind = "copy" THEN "CopyObjectTask" ELSE "PutObjectTask")
               ELSE IF k = Create THEN "CreateMultipartUploadTask"
-              ELSE IF k = Final THEN "CompleteMultipartUploadTask" ELSE "UploadPartTask"
+              ELSE IF k = Final THEN "CompleteMultipartUploadTask"
+              ELSE IF Kind = "copy" THEN "CopyPartTask" ELSE "UploadPartTask"
 Size == IF P = 0 THEN 1 ELSE P
 MetaC == [ cfg |-> [R |-> R, S |-> 1, RQ |-> RQ, SQ |-> 1000, IOQ |-> 1000, io_chunk |-> 1,
                     attempts |-> 3, up_chunks |-> 10, down_chunks |-> 10, chunk |-> 1, minp |-> 1, maxp |-> 1000000, maxn |-> 10000,
                     threshold |-> IF P = 0 THEN 2 ELSE 1],
-           xs |-> << [kind |-> Kind, size |-> Size, dstk |-> "none", srck |-> "path",
-                      hasOld |-> FALSE, nsubs |-> 1, provide |-> FALSE, faultFree |-> (MaxFaults = 0),
+           xs |-> << [kind |-> Kind, size |-> Size, dstk |-> "none",
+                      srck |-> IF Kind = "upload" THEN "path" ELSE "none",
+                      hasOld |-> FALSE, nsubs |-> 1, provide |-> (Kind = "copy" /\ ~NeedHead), faultFree |-> (MaxFaults = 0),
                       override |-> FALSE, shortsrc |-> FALSE] >> ]
 
 VARIABLES
@@ -109,15 +115,19 @@ Emit2(e1, e2) == o' = Apply(Apply(o, e1), e2) /\ UNCHANGED clk
 Quiet == UNCHANGED <<o, clk>>
 EvS3Begin(th, op, part) ==
     [e |-> "S3Begin", seq |-> seq + 1, x |-> 0, op |-> op,
-     uid |-> IF op = "CreateMultipartUpload" \/ P = 0 THEN 0 ELSE 1, part |-> part, rs |-> -1,
-     xfer |-> (op # "AbortMultipartUpload"), th |-> th, chk |-> IF th \in Workers THEN wchk[th] ELSE -1,
+     uid |-> IF op \in {"CreateMultipartUpload", "HeadObject"} \/ P = 0 THEN 0 ELSE 1, part |-> part, rs |-> -1,
+     xfer |-> (op \notin {"AbortMultipartUpload", "HeadObject"}), th |-> th,
+     chk |-> IF th \in Workers THEN wchk[th] ELSE -1,
      t |-> Now, user |-> FALSE]
 PartsListed == [i \in 1..P |-> [n |-> i, s |-> i - 1, l |-> 1, etag |-> TRUE, crc |-> TRUE]]
 EvS3End(op, oc) ==
     [e |-> "S3End", seq |-> seq, x |-> 0, op |-> op,
-     uid |-> IF P = 0 THEN 0 ELSE 1, oc |-> oc, xfer |-> (op # "AbortMultipartUpload"),
-     bs |-> 0, bl |-> IF op = "PutObject" THEN Size ELSE IF op = "UploadPart" THEN 1 ELSE -1,
-     bsrc |-> IF op \in {"PutObject", "UploadPart"} THEN "own" ELSE "none",
+     uid |-> IF P = 0 \/ op = "HeadObject" THEN 0 ELSE 1, oc |-> oc,
+     xfer |-> (op \notin {"AbortMultipartUpload", "HeadObject"}),
+     bs |-> IF op \in {"PutObject", "CopyObject", "UploadPart", "UploadPartCopy"} THEN 0 ELSE -1,
+     bl |-> IF op \in {"PutObject", "CopyObject"} THEN Size
+            ELSE IF op \in {"UploadPart", "UploadPartCopy"} THEN 1 ELSE -1,
+     bsrc |-> IF op \in {"PutObject", "CopyObject", "UploadPart", "UploadPartCopy"} THEN "own" ELSE "none",
      parts |-> IF op = "CompleteMultipartUpload" THEN PartsListed ELSE <<>>, user |-> FALSE]
 EvFault(tag) == [e |-> "Fault", x |-> 0, tag |-> tag, fatal |-> TRUE, user |-> FALSE]
 EvCb(ph, cb, flag, st, byUser) ==
@@ -309,9 +319,22 @@ SubOnQueuedEnd(ok) ==
 SubRunning ==
     /\ spc = "running"
     /\ IF IsDoneS(status) THEN spc' = "fail" /\ UNCHANGED status
-       ELSE status' = "running" /\ spc' = "submit"
+       ELSE status' = "running" /\ spc' = IF Kind = "copy" /\ NeedHead THEN "headB" ELSE "submit"
     /\ Emit([e |-> "Status", x |-> 0, st |-> status', user |-> FALSE])
     /\ UNCHANGED <<exc, event, cleanup, locks, exec, wk, snext, us, ann, faults, seq, uidKnown>>
+\* copy: the size of the source is discovered first      [S3Begin / S3End HeadObject]
+SubHeadBegin ==
+    /\ spc = "headB"
+    /\ Emit(EvS3Begin("sub", "HeadObject", 0))
+    /\ seq' = seq + 1 /\ spc' = "headE"
+    /\ UNCHANGED <<coord, event, cleanup, locks, exec, wk, snext, us, ann, faults, uidKnown>>
+SubHeadEnd(oc) ==
+    /\ spc = "headE"
+    /\ (oc # "ok") => faults < MaxFaults
+    /\ faults' = IF oc = "ok" THEN faults ELSE faults + 1
+    /\ IF oc = "ok" THEN Emit(EvS3End("HeadObject", "ok")) /\ spc' = "submit"
+       ELSE Emit2(EvFault("F" \o ToString(seq)), EvS3End("HeadObject", oc)) /\ spc' = "failhead"
+    /\ UNCHANGED <<coord, event, cleanup, locks, exec, wk, snext, us, ann, seq, uidKnown>>
 \* [ExecSubmit request] BoundedExecutor.submit: acquire a queue slot (blocks
 \* while none), enqueue
 SubSubmit ==
@@ -328,8 +351,9 @@ SubEnd ==
     /\ UNCHANGED <<coord, event, cleanup, locks, exec, wk, snext, us, ann, faults, seq, uidKnown>>
 \* [SetExc] exception path of _main: set_exception ...
 SubFail ==
-    /\ spc \in {"fail", "failcbq"}
-    /\ SetException(IF spc = "failcbq" THEN "CBQ" ELSE "RuntimeError")
+    /\ spc \in {"fail", "failcbq", "failhead"}
+    /\ SetException(IF spc = "failcbq" THEN "CBQ" ELSE IF spc = "failhead" THEN "F" \o ToString(seq)
+                    ELSE "RuntimeError")
     /\ spc' = "failwait" /\ Quiet
     /\ UNCHANGED <<event, cleanup, locks, exec, wk, snext, us, ann, faults, seq, uidKnown>>
 \* ... wait for every submitted future, then announce done
@@ -394,7 +418,7 @@ WMainEnd(w, oc) ==
 \* "upload reads abort promptly once the transfer has failed" (upload.py,
 \* InterruptReader): a task that reads a body re-raises the transfer's stored
 \* exception instead of sending / while sending its request
-HasBody(k) == (k \in 1..P) \/ (P = 0 /\ Kind = "upload")
+HasBody(k) == Kind = "upload" /\ ((k \in 1..P) \/ P = 0)
 WInterrupt(w) ==
     /\ wpc[w] = "main" /\ exc # "none" /\ HasBody(wcur[w])
     /\ wpc' = [wpc EXCEPT ![w] = "exc"]
@@ -467,7 +491,8 @@ UserNext == UserCall \/ UserSubmit \/ UserRet \/ UserResult \/ UserShutdown
 CancelNext == UCancelCall \/ CancelBegin \/ CancelLin \/ UCancelRet
 SubNext ==
     \/ SubTake \/ SubCheck \/ SubQueued \/ SubOnQueuedBegin \/ SubOnQueuedEnd(TRUE) \/ SubOnQueuedEnd(FALSE)
-    \/ SubRunning \/ SubSubmit \/ SubEnd \/ SubFail \/ SubFailWait \/ SubFailDone \/ SubTaskEnd
+    \/ SubRunning \/ SubHeadBegin \/ SubHeadEnd("ok") \/ SubHeadEnd("fault")
+    \/ SubSubmit \/ SubEnd \/ SubFail \/ SubFailWait \/ SubFailDone \/ SubTaskEnd
 WNext(w) ==
     \/ WTake(w) \/ WDeps(w) \/ WMainBegin(w)
     \/ WMainEnd(w, "ok") \/ WMainEnd(w, "fault") \/ WMainEnd(w, "fault-after")
